@@ -15,7 +15,10 @@ exhausted. "Terminates" = some budget computable from the program and the haysta
 * §(c) the stack bound: `peak` (the maximum size of the backtrack stack / state stack seen at a
   tick) is bounded linearly by the number of ticks.
 * §(b) forward (loop-free) programs terminate within `(L + 3)^(n + 1)` ticks per attempt
-  (`n` instructions, `L` haystack bytes).
+  (`n` instructions, `L` haystack bytes), both executors.
+* §(d) PikeVM only: programs with properly nested general loops and `loop1` (no look-arounds)
+  terminate within `3 ^ ((L + 1) * (n + 1) * Π (2 * (min + 1) + 2))` ticks per attempt.
+* `wfProg` alone does not imply termination (`jump 0`), for either model.
 -/
 
 namespace Regress.C05
@@ -436,6 +439,32 @@ theorem pk_rankBound_eq (prog : Prog) (L : Nat) :
 example : (Pk.attempt progNested hayAab 200 0).summary = .failed 22 5 := by decide +kernel
 example : (Pk.attempt progStarStar hayAab 60 0).summary = .matched 3 9 5 := by decide +kernel
 
+/-! ## (a) + (b)/(d): above the bound the outcome does not depend on the fuel -/
+
+/-- For a forward program every budget `fuel ≥ (L + 3)^(n + 1)` gives the outcome obtained with
+exactly `(L + 3)^(n + 1)`: the model's answer is the answer of the unbounded engine. -/
+theorem bt_attempt_fuel_independent (prog : Prog) (hf : forwardProg prog = true) (inp : Input)
+    (fuel pos : Nat) (hfuel : (inp.bytes.size + 3) ^ (prog.insns.size + 1) ≤ fuel) :
+    Bt.attempt prog inp fuel pos
+      = Bt.attempt prog inp ((inp.bytes.size + 3) ^ (prog.insns.size + 1)) pos :=
+  bt_attempt_fuel_mono prog inp _ fuel hfuel pos
+    (bt_attempt_terminates prog hf inp _ pos (Nat.le_refl _)).1
+
+theorem pk_attempt_fuel_independent (prog : Prog) (hf : forwardProg prog = true)
+    (hl1 : Pk.loop1Scm prog = true) (inp : Input)
+    (fuel pos : Nat) (hfuel : (inp.bytes.size + 3) ^ (prog.insns.size + 1) ≤ fuel) :
+    Pk.attempt prog inp fuel pos
+      = Pk.attempt prog inp ((inp.bytes.size + 3) ^ (prog.insns.size + 1)) pos :=
+  pk_attempt_fuel_mono prog inp _ fuel hfuel pos
+    (pk_attempt_terminates prog hf hl1 inp _ pos (Nat.le_refl _)).1
+
+theorem pk_loop_attempt_fuel_independent (prog : Prog) (hf : Pk.loopProg prog = true)
+    (hl1 : Pk.loop1Scm prog = true) (inp : Input)
+    (fuel pos : Nat) (hfuel : 3 ^ Pk.rankBound prog inp.bytes.size ≤ fuel) :
+    Pk.attempt prog inp fuel pos = Pk.attempt prog inp (3 ^ Pk.rankBound prog inp.bytes.size) pos :=
+  pk_attempt_fuel_mono prog inp _ fuel hfuel pos
+    (pk_loop_attempt_terminates prog hf hl1 inp _ pos (Nat.le_refl _)).1
+
 /-! ## `wfProg` alone does not imply termination
 
 `wfProg` constrains jump targets only to be in range. A well-formed (but never emitted) program can
@@ -509,6 +538,9 @@ theorem pk_jumpSelf_diverges (inp : Input) (limit : Nat) :
 #print axioms pk_attempt_terminates
 #print axioms pk_loop_runStates_terminates
 #print axioms pk_loop_attempt_terminates
+#print axioms bt_attempt_fuel_independent
+#print axioms pk_attempt_fuel_independent
+#print axioms pk_loop_attempt_fuel_independent
 #print axioms bt_jumpSelf_diverges
 #print axioms pk_jumpSelf_diverges
 
